@@ -1,37 +1,43 @@
-import AslProofs.IniPersist
+import AslProofs.IniHistory
+import AslProofs.CsvQ
 import AslProps.C18Spec
 /-!
 # C18 — IniFile and TabularDataFile persist exactly what was set or written: property theorems
+
+Models: `AslModel/Ini.lean` (constructor, `operator[]`, `set`, `has`, `values`, `write`, destructor of
+`IniFile`) and `AslModel/Csv.lean` (`TabularDataFile` row writer, header detection, row parser,
+`myisnumber`, `myatof`), run by `Driver/C18.lean` against `harness/c18.cpp` on every check.
+Specifications: `AslProps/C18Spec.lean` (INI documents and their meaning, number texts), written from the
+formats, not from the code.  Every theorem below quantifies over all documents / texts / histories / rows.
 -/
 namespace C18
 open AslModel
 open AslModel.Ini hiding Bytes
+open AslModel.Csv (Cell Dec parseRow writeRow isNumber atofDec)
 open C18Spec hiding Bytes
-open AslProofs.Ini
+open AslProofs.Ini (Op run setsOf path AnyOp anyRun SameLine Pointwise)
+open AslProofs.Csv (cellText CellOK numValue decValue)
 
 abbrev Bytes := List UInt8
 
-/-- the name `"section/key"` the API takes -/
-def path (s k : Bytes) : Bytes := s ++ [47] ++ k
+/-! ## IniFile: reading -/
 
-/-! ## reading -/
-
-/-- **ini_read_spec.**  For every document of the grammar (sections, `key = value` lines with optional blanks,
-    `#`/`;` comments, blank lines), with LF or CRLF line ends, with or without a final line end, a fresh
-    `IniFile` holds exactly the document's key/value relation: `has` tells whether the entry exists and
-    `operator[]` returns its value (the last one if repeated). -/
+/-- **ini_read_spec.**  For every document of the grammar (sections, `key = value` lines with optional blanks
+    around key, `=` and value, `#`/`;` comments, blank lines), with LF or CRLF line ends, **with or without a
+    final line end**, a fresh `IniFile` holds exactly the document's key/value relation: `has` tells whether
+    the entry exists and `operator[]` returns its value (the last one if repeated). -/
 theorem ini_read_spec (doc : List Item) (hd : ∀ it ∈ doc, it.WF) (eol : Bytes) (he : LineEnd eol)
     (finalNewline shouldwrite : Bool) (s k : Bytes) (hs : 47 ∉ s) :
     Ini.has (Ini.read (renderDoc doc eol finalNewline) shouldwrite) (path s k) = (relGet doc s k).isSome ∧
     Ini.get (Ini.read (renderDoc doc eol finalNewline) shouldwrite) (path s k) = (relGet doc s k).getD [] := by
   unfold path
-  rw [has_slash _ s k hs, get_slash _ s k hs, lookupD, read_render_lookup doc hd eol he finalNewline shouldwrite s k]
+  rw [AslProofs.Ini.has_slash _ s k hs, AslProofs.Ini.get_slash _ s k hs, AslProofs.Ini.lookupD,
+    AslProofs.Ini.read_render_lookup doc hd eol he finalNewline shouldwrite s k]
   exact ⟨rfl, rfl⟩
 
-/-- the hypotheses of `ini_read_spec` are satisfiable: `"; c\r\n[net]\r\n  retries = 3"` (CRLF, no final line end) -/
-example : ∃ doc : List Item, (∀ it ∈ doc, it.WF) ∧ doc ≠ [] ∧
-    relGet doc [110, 101, 116] [114] = some [51] := by
-  refine ⟨[.comment [] 59 [32, 99], .header [110, 101, 116], .kv [32, 32] [114] [32] [32] [51] []], ?_, by simp, by decide⟩
+/-- the hypotheses are satisfiable: `"; c" / "[net]" / "  r = 3"` is a document, and `net/r` is `3` in it -/
+example : ∃ doc : List Item, (∀ it ∈ doc, it.WF) ∧ relGet doc [110, 101, 116] [114] = some [51] := by
+  refine ⟨[.comment [] 59 [32, 99], .header [110, 101, 116], .kv [32, 32] [114] [32] [32] [51] []], ?_, by decide⟩
   intro it hit
   simp only [List.mem_cons, List.not_mem_nil, or_false] at hit
   rcases hit with e | e | e <;> subst e
@@ -47,154 +53,94 @@ example : ∃ doc : List Item, (∀ it ∈ doc, it.WF) ∧ doc ≠ [] ∧
     · intro c hc; simp at hc; subst hc; unfold White; decide
     · intro c hc; simp at hc
 
-/-! ## histories: sets and writes -/
+/-- identifier-like keys (`[A-Za-z0-9_]+`) satisfy the key condition of the theorems -/
+theorem ini_identifier_keys (k : Bytes) (h : Ident k) : KeyOK k := AslProofs.Ini.ident_keyOK k h
 
-/-- an operation of a session: `set("sec/key", value)` or `write()` (the destructor is a `write`) -/
-inductive Op where
-  | set (o : SetOp)
-  | write
-
-/-- object and file content after one operation; `none` = out-of-bounds read in `write` -/
-def step (st : Ini × Bytes) : Op → Option (Ini × Bytes)
-  | .set o => some (Ini.set st.1 (path o.sec o.key) o.val, st.2)
-  | .write => (Ini.write st.1).map fun r => (r.ini, r.text.getD st.2)
-
-def run : Ini × Bytes → List Op → Option (Ini × Bytes)
-  | st, [] => some st
-  | st, o :: t =>
-    match step st o with
-    | none => none
-    | some st' => run st' t
-
-def setsOf : List Op → List SetOp
-  | [] => []
-  | .set o :: t => o :: setsOf t
-  | .write :: t => setsOf t
-
-/-- last set of `s`/`k`, else `d` -/
-def foldD (s k : Bytes) (ops : List SetOp) (d : Bytes) : Bytes :=
-  ops.foldl (fun acc o => if o.sec = s ∧ o.key = k then o.val else acc) d
-
-theorem afterSets_getD (doc : List Item) (ops : List SetOp) (s k : Bytes) :
-    (afterSets doc ops s k).getD [] = foldD s k ops ((relGet doc s k).getD []) := by
-  unfold afterSets foldD
-  generalize relGet doc s k = a
-  induction ops generalizing a with
-  | nil => rfl
-  | cons o t ih =>
-    simp only [List.foldl_cons]
-    rw [ih]
-    by_cases h : o.sec = s ∧ o.key = k <;> simp [h]
-
-/-- the file agrees with the object -/
-def Agree (st : Ini × Bytes) : Prop :=
-  ∀ sw s k, lookupD (Ini.read st.2 sw).sections s k = lookupD st.1.sections s k
-
-theorem lookupD_secSet (secs : Dic Section) (c key v s k : Bytes) :
-    lookupD (secSet secs c key v) s k = if s = c ∧ k = key then v else lookupD secs s k := by
-  unfold lookupD
-  rw [lookup_secSet]
-  by_cases h : s = c ∧ k = key <;> simp [h]
-
-theorem run_inv (ops : List Op) (st : Ini × Bytes) (hwf : WFIni st.1) (hne : HasNE st.1.lines)
-    (hops : ∀ o ∈ setsOf ops, o.WF) (hJ : st.1.modified = false → Agree st) :
-    ∃ st', run st ops = some st' ∧ WFIni st'.1 ∧ HasNE st'.1.lines ∧ (st'.1.modified = false → Agree st') ∧
-      ∀ s k, lookupD st'.1.sections s k = foldD s k (setsOf ops) (lookupD st.1.sections s k) := by
-  induction ops generalizing st with
-  | nil => exact ⟨st, rfl, hwf, hne, hJ, fun s k => rfl⟩
-  | cons o t ih =>
-    cases o with
-    | set o =>
-      have ho : o.WF := hops o (by simp [setsOf])
-      obtain ⟨h1, h2, h3, h4⟩ := ho
-      have hwf' : WFIni (Ini.set st.1 (path o.sec o.key) o.val) := set_wf st.1 o.sec o.key o.val hwf h1 h2 h3 h4
-      have hne' : HasNE (Ini.set st.1 (path o.sec o.key) o.val).lines := by
-        rw [path, set_slash st.1 o.sec o.key o.val h2]; exact hne
-      obtain ⟨st', hr, hw', hn', hJ', hl⟩ := ih (Ini.set st.1 (path o.sec o.key) o.val, st.2) hwf' hne'
-        (fun x hx => hops x (by simp [setsOf, hx])) (by
-          intro hm
-          rw [path, set_slash st.1 o.sec o.key o.val h2] at hm
-          simp at hm)
-      refine ⟨st', by simp [run, step, hr], hw', hn', hJ', ?_⟩
-      intro s k
-      rw [hl s k]
-      simp only [setsOf, foldD, List.foldl_cons]
-      congr 1
-      show lookupD (Ini.set st.1 (path o.sec o.key) o.val).sections s k = _
-      rw [path, set_slash st.1 o.sec o.key o.val h2]
-      simp only [lookupD_secSet]
-      by_cases h : o.sec = s ∧ o.key = k
-      · obtain ⟨e1, e2⟩ := h; subst e1; subst e2; simp
-      · have : ¬ (s = o.sec ∧ k = o.key) := fun ⟨a, b⟩ => h ⟨a.symm, b.symm⟩
-        simp [h, this]
-    | write =>
-      obtain ⟨r, hw, hlines⟩ := write_isSome st.1 hne
-      obtain ⟨hwf', _, hsame, _, hnone⟩ := write_wf st.1 hwf r hw
-      have hagree : Agree (r.ini, r.text.getD st.2) := by
-        intro sw s k
-        rw [hsame]
-        cases ht : r.text with
-        | some t =>
-          obtain ⟨doc, hdl, hd⟩ := doc_of_wfLines st.1.lines hwf.1
-          exact write_lookup st.1 doc hdl hd hwf.2.1 hwf.2.2 r hw t ht sw s k
-        | none => exact hJ (hnone ht) sw s k
-      obtain ⟨st', hr, hw', hn', hJ', hl⟩ := ih (r.ini, r.text.getD st.2) hwf' (by rw [hlines]; exact hne)
-        (fun x hx => hops x (by simpa [setsOf] using hx)) (fun _ => hagree)
-      refine ⟨st', by simp [run, step, hw, hr], hw', hn', hJ', ?_⟩
-      intro s k
-      rw [hl s k]
-      simp only [setsOf]
-      rw [hsame]
-
-theorem run_append (a b : List Op) (st : Ini × Bytes) :
-    run st (a ++ b) = (run st a).bind fun st' => run st' b := by
-  induction a generalizing st with
-  | nil => rfl
-  | cons o t ih =>
-    simp only [List.cons_append, run]
-    cases step st o with
-    | none => rfl
-    | some st' => exact ih st'
+/-! ## IniFile: set, write, read again -/
 
 /-- **ini_persist.**  Start from the text of any document of the grammar (LF or CRLF, with or without final
-    line end), open it, apply any sequence of `set("section/key", value)` calls (existing keys, new keys, new
-    sections, the section-less group `-`) interleaved with any number of explicit `write()` calls, and let the
-    destructor write.  No `write` reads outside `_lines`, and a fresh `IniFile` on the resulting file returns,
-    for every section and key, the value of the last `set` of that entry, or else the value the document had
-    (absent entries read as empty). -/
+    line end), open it, apply any sequence (of any length) of `set("section/key", value)` calls — existing
+    keys, new keys in existing sections, new sections, the section-less group `-` — interleaved with any
+    number of explicit `write()` calls, and let the destructor write.  No `write` reads outside `_lines`,
+    and a fresh `IniFile` on the resulting file returns, for **every** section and key, the value of the last
+    `set` of that entry, or else the value the document had (absent entries read as empty). -/
 theorem ini_persist (doc : List Item) (hd : ∀ it ∈ doc, it.WF) (eol : Bytes) (he : LineEnd eol) (finalNewline : Bool)
     (ops : List Op) (hops : ∀ o ∈ setsOf ops, o.WF) :
     ∃ obj file, run (Ini.read (renderDoc doc eol finalNewline) true, renderDoc doc eol finalNewline) (ops ++ [Op.write])
         = some (obj, file) ∧
       ∀ shouldwrite s k, 47 ∉ s →
         Ini.get (Ini.read file shouldwrite) (path s k) = (afterSets doc (setsOf ops) s k).getD [] := by
-  have hwf := read_wf doc hd eol he finalNewline
-  have hne := read_hasNE (renderDoc doc eol finalNewline) true
+  have hwf := AslProofs.Ini.read_wf doc hd eol he finalNewline
+  have hne := AslProofs.Ini.read_hasNE (renderDoc doc eol finalNewline) true
   have hJ : (Ini.read (renderDoc doc eol finalNewline) true).modified = false →
-      Agree (Ini.read (renderDoc doc eol finalNewline) true, renderDoc doc eol finalNewline) := by
+      AslProofs.Ini.Agree (Ini.read (renderDoc doc eol finalNewline) true, renderDoc doc eol finalNewline) := by
     intro _ sw s k
-    simp only [lookupD, read_render_lookup doc hd eol he finalNewline]
-  obtain ⟨st1, hr1, hw1, hn1, hJ1, hl1⟩ := run_inv ops (Ini.read (renderDoc doc eol finalNewline) true, renderDoc doc eol finalNewline) hwf hne hops hJ
-  -- the final write
-  obtain ⟨st2, hr2, _, _, _, hl2⟩ := run_inv [Op.write] st1 hw1 hn1 (by simp [setsOf]) hJ1
-  have hag : Agree st2 := by
-    -- recover the agreement established by the last write
-    simp only [run, step] at hr2
-    obtain ⟨r, hw, _⟩ := write_isSome st1.1 hn1
-    obtain ⟨_, _, hsame, _, hnone⟩ := write_wf st1.1 hw1 r hw
-    simp only [hw, Option.map_some, Option.some.injEq] at hr2
-    subst hr2
-    intro sw s k
-    rw [hsame]
-    cases ht : r.text with
-    | some t =>
-      obtain ⟨doc', hdl, hd'⟩ := doc_of_wfLines st1.1.lines hw1.1
-      exact write_lookup st1.1 doc' hdl hd' hw1.2.1 hw1.2.2 r hw t ht sw s k
-    | none => exact hJ1 (hnone ht) sw s k
-  refine ⟨st2.1, st2.2, by rw [run_append, hr1]; exact hr2, ?_⟩
+    simp only [AslProofs.Ini.lookupD, AslProofs.Ini.read_render_lookup doc hd eol he finalNewline]
+  obtain ⟨st1, hr1, hw1, hn1, hJ1, hl1⟩ := AslProofs.Ini.run_inv ops
+    (Ini.read (renderDoc doc eol finalNewline) true, renderDoc doc eol finalNewline) hwf hne hops hJ
+  obtain ⟨st2, hr2, hag, hl2⟩ := AslProofs.Ini.run_final_write st1 hw1 hn1 hJ1
+  refine ⟨st2.1, st2.2, by rw [AslProofs.Ini.run_append, hr1]; exact hr2, ?_⟩
   intro sw s k hs
   unfold path
-  rw [get_slash _ s k hs, hag sw s k, hl2 s k, hl1 s k, afterSets_getD]
-  simp only [setsOf, foldD, List.foldl_nil, lookupD, read_render_lookup doc hd eol he finalNewline true s k]
+  rw [AslProofs.Ini.get_slash _ s k hs, hag sw s k, hl2 s k, hl1 s k, AslProofs.Ini.afterSets_getD]
+  simp only [AslProofs.Ini.lookupD, AslProofs.Ini.read_render_lookup doc hd eol he finalNewline true s k]
+
+/-- a well-formed `set`: `set("net/retries", "5")` -/
+example : (⟨[110, 101, 116], [114], [53]⟩ : SetOp).WF := by
+  refine ⟨⟨by decide, by decide⟩, by decide, ⟨by decide, by decide, by decide, by decide, ?_, ?_⟩, ⟨by decide, ?_, ?_⟩⟩
+  · intro c hc; simp at hc; subst hc; decide
+  · intro c hc; simp at hc; subst hc; unfold White; decide
+  · intro c hc; simp at hc; subst hc; unfold White; decide
+  · intro c hc; simp at hc; subst hc; unfold White; decide
+
+/-- **ini_write_in_bounds.**  For *any* file content whatsoever (or a missing file), opened either way, and
+    any sequence of `set`, `operator[] =` and `write` calls with any byte strings, `write` never reads
+    outside `_lines` (the model's `write` returns `none` exactly when the backwards scans of the second loop
+    would leave the array; before 3bcb78f the first scan did, on two blank lines followed by `[s]` when a
+    key of the section-less group had to be placed). -/
+theorem ini_write_in_bounds (file : Option Bytes) (shouldwrite : Bool) (ops : List AnyOp) :
+    (anyRun (Ini.openFile file shouldwrite) ops).isSome = true :=
+  AslProofs.Ini.anyRun_isSome _ (AslProofs.Ini.openFile_hasNE file shouldwrite) ops
+
+/-- **ini_order.**  For *any* object state, the text `write` produces consists of all the lines of `_lines` in
+    their original order — comment lines, section headers, blank lines and any other non-entry line byte for
+    byte, entry lines respelled `indent key=value` with the same key — with new lines only *inserted*
+    (`kept` is a sub-sequence of the output that corresponds line by line to the original lines). -/
+theorem ini_order (ini : Ini) (r : Ini.WriteResult) (hw : Ini.write ini = some r) (t : Bytes) (ht : r.text = some t) :
+    ∃ kept out : List Bytes, t = Ini.joinLines out ∧ kept.Sublist out ∧
+      Pointwise (SameLine ini.indent) ini.lines kept :=
+  AslProofs.Ini.write_order ini r hw t ht
+
+/-! ## TabularDataFile -/
+
+/-- **csv_row_roundtrip.**  For every separator other than the quote and every non-empty row of cells — strings of
+    *any* bytes (separators, quotes, blanks, empty strings, a row that is one empty string) and number texts —
+    parsing the written row gives back the cells' texts, cell for cell. -/
+theorem csv_row_roundtrip (sep : UInt8) (hsep : sep ≠ 34) (c : Cell) (t : List Cell)
+    (hc : CellOK sep c) (ht : ∀ x ∈ t, CellOK sep x) :
+    parseRow sep (writeRow sep 34 (c :: t)) = cellText c :: t.map cellText :=
+  AslProofs.Csv.parseRow_writeRow sep hsep c t hc ht
+
+/-- e.g. the row `he said "hi", (empty), a;b` with separator `,` -/
+example : parseRow 44 (writeRow 44 34 [.str [104, 34, 105, 44], .str [], .str [97, 59, 98]])
+    = [[104, 34, 105, 44], [], [97, 59, 98]] := by decide
+
+/-- **csv_number_exact_Q.**  Every number text `[-]digits[.digits][(e|E)[+|-]digits]` (in particular every
+    `%.15g` output) is recognised as a number by `myisnumber`, and the rational number `± y1 · 10^exp` that
+    `myatof` computes before its final floating-point multiplication is *exactly* the number the text spells. -/
+theorem csv_number_exact_Q (n : Num) (h : n.WF) :
+    isNumber 46 n.text = true ∧ decValue (atofDec n.text) = numValue n :=
+  ⟨AslProofs.Csv.isNumber_text n h, AslProofs.Csv.number_exact n h⟩
+
+/-- `-12.5e-3` is a number text -/
+example : (⟨true, [49, 50], some [53], some (101, some true, [51])⟩ : Num).WF := by
+  have d1 : IsDigits [49, 50] := by intro c hc; simp at hc; rcases hc with rfl | rfl <;> decide
+  have d2 : IsDigits [53] := by intro c hc; simp at hc; subst hc; decide
+  have d3 : IsDigits [51] := by intro c hc; simp at hc; subst hc; decide
+  refine ⟨d1, d2, by decide, ?_⟩
+  intro e sgn ed h
+  simp at h
+  obtain ⟨rfl, rfl, rfl⟩ := h
+  exact ⟨Or.inl rfl, d3, by decide⟩
 
 end C18
